@@ -5,6 +5,7 @@
 From Coq Require Import ZArith List Bool Lia.
 Import ListNotations.
 Require Import Amoco.C14.Model Amoco.C16.Layout Amoco.C16.Proofs Amoco.C16.Fields Amoco.C16.FieldsProofs.
+Require Amoco.C16.Sleb.
 Open Scope Z_scope.
 
 (* Natural alignment: every field of a non-packed structure sits at the least offset that is a multiple of its
@@ -60,6 +61,21 @@ Print Assumptions C16_bound_roundtrip.
 Theorem C16_terminated_field : forall s t, Forall (fun b => b <> 0) s -> term_unpack (s ++ 0 :: t) = s ++ [0].
 Proof. exact term_unpack_correct. Qed.
 Print Assumptions C16_terminated_field.
+
+(* signed LEB128 (write_sleb128 / read_sleb128): every integer that fits k+1 groups of 7 bits is read back exactly, whatever
+   follows it, and the number of bytes reported is the number written; the encoding written is the shortest one *)
+Theorem C16_sleb128_roundtrip : forall f v t, Sleb.fits f v ->
+  Sleb.sleb_dec (Sleb.sleb_enc (S f) v ++ t) 0 0 0 = (v, length (Sleb.sleb_enc (S f) v)).
+Proof. intros f v t H. rewrite Sleb.sleb_roundtrip by (try assumption; lia). f_equal. cbn. apply Z.mul_1_r. Qed.
+Print Assumptions C16_sleb128_roundtrip.
+Theorem C16_sleb128_is_shortest : forall f v k, Sleb.fits f v -> (k <= f)%nat -> Sleb.fits k v ->
+  (length (Sleb.sleb_enc (S f) v) <= S k)%nat.
+Proof. exact Sleb.sleb_shortest. Qed.
+Print Assumptions C16_sleb128_is_shortest.
+Example C16_sleb128_nonvacuous :
+  Sleb.sleb_enc 40 (-64) = [64] /\ Sleb.sleb_enc 40 (-65) = [191; 127] /\ Sleb.sleb_enc 40 64 = [192; 0] /\
+  Sleb.sleb_dec [192; 0; 7] 0 0 0 = (64, 2%nat) /\ Sleb.sleb_enc 40 (-8192) = [128; 64].
+Proof. vm_compute. repeat split; reflexivity. Qed.
 
 Example C16_fields_nonvacuous :
   cnt_unpack true true 2 2 (cnt_pack true true 2 2 [-2; 513] ++ [9; 9]) = ([-2; 513], 6%nat) /\
